@@ -9,7 +9,7 @@ def check(rep):
     ER.rule_random_guarded(ctx)
     ER.rule_no_entropy(ctx)
     ER.rule_hash_pure(ctx, rid="C01.HASH-PRIMITIVE")
-    ER.rule_value_keyed_caches(ctx, rid="C01.NO-VALUE-KEYED-CACHE")
+    ER.rule_value_keyed_caches(ctx, rid="C01.NO-VALUE-KEYED-CACHE", modules={"binning/binning.py", "experiment_evaluator.py"})
     ER.rule_retained_arguments(ctx, rid="C01.NO-RETAINED-ARGUMENT")
     ER.rule_call_forwards(ctx, rid="C01.CALL-FORWARDS")
     ER.rule_installed_function(ctx, rid="C01.INSTALLED-FUNCTION", strict=False, facets=("namespace", "installed"))
